@@ -16,7 +16,8 @@ RULE = ("seeded archive generator (independent writer): visor / mixed / plain ar
         "1..4096, members aliasing other members' bytes, ustar prefix names, GNU long names, four number encodings (incl. GNU "
         "base-256), gzip-wrapped archives, data offsets at and beyond 2^31 (sparse 4 GiB files); directed in every run: visor headers "
         "whose byte 264 behind the 7-byte magic is blank / '0' / 0x01 / 0xFF / ... instead of NUL (visor and mixed archives, plain and "
-        "gzip), standard members whose magic field is a near miss of the visor magic; plus archives WRITTEN BY THE "
+        "gzip), standard members whose magic field is a near miss of the visor magic, data-area members whose content is itself a tar archive at a "
+        "block-aligned position and archives followed by a second tar archive (the listing ends at the end-of-archive marker); plus archives WRITTEN BY THE "
         "LEAN WRITER of theorem vmtar_members_roundtrip (Hv/VmtarEnc.encode, run by the driver on generated member specs and "
         "layouts inside the theorem's WF: shuffled data areas with gaps, inline members, directories, empty files, extreme "
         "mode/uid/gid/mtime) and read back by the real vmtar.open. Every member's listing fields and "
@@ -210,7 +211,8 @@ def build(case):
                       | ({"gz"} if b["gz"] else set()) | ({"huge"} if r["huge"] else set())
                       | ({"plain"} if b["plain"] else set())
                       | ({"visor-byte264-" + ("nul" if not m.get("b264") else "nonnul") for m in rm if m["visor"]})
-                      | ({"near-visor-magic"} if any(m["magic"].startswith("raw:") for m in rm) else set()))
+                      | ({"near-visor-magic"} if any(m["magic"].startswith("raw:") for m in rm) else set())
+                      | ({"tar-content"} if any(m.get("tar") for m in rm) else set()) | ({"tail-tar"} if r.get("tailtar") else set()))
     nt = len(rm) >= 2 and (any(m["visor"] and m["type"] == "file" and m["size"] > 0 and m["place"] in ("area", "alias") for m in rm)
                            or (b["plain"] and any(m["type"] == "file" and m["size"] > 0 for m in rm)))
     info = {"branches": branches, "in_scope": "prefix151" not in b["edges"], "compare_model_out_of_scope": True,
